@@ -922,3 +922,25 @@ func PassedSite(substr string) bool {
 	}
 	return false
 }
+
+// ---- package-level state of the tree under test
+
+var globalResets []func()
+var globalResetNames []string
+
+// RegisterGlobalReset is called from generated init functions of the instrumented tree: f gives the package-level
+// variables of one source file their initial values again.
+func RegisterGlobalReset(file string, f func()) {
+	globalResetNames = append(globalResetNames, file)
+	globalResets = append(globalResets, f)
+}
+
+// ResetGlobalState puts every package-level variable of the instrumented tree back to its initial value.
+func ResetGlobalState() {
+	for _, f := range globalResets {
+		f()
+	}
+}
+
+// GlobalResetFiles lists the source files whose package-level variables are reset.
+func GlobalResetFiles() []string { return append([]string{}, globalResetNames...) }
